@@ -197,6 +197,7 @@ class C11(F.PropCheck):
         cases += self.relconn_cases(rng, max(20, n // 12))
         cases += self.redeliver_cases(rng, max(24, n // 12))
         cases += self.startup_cases(rng, max(24, n // 12))
+        cases += self.cfg_cases(rng, max(24, n // 12))
         if tier != 'search': cases += self.sweep_cases(tier) + self.spike_cases(tier)
         return cases
 
@@ -233,6 +234,41 @@ class C11(F.PropCheck):
                 else:
                     evs += [('IN', [1], b''), ('ADV', [d + 125 * MS], b''), ('TRIG', [mask], b''), ('ADV', [g1], b''), ('IN', [0], b''), ('ADV', [900 * MS], b'')]
             cases.append(F.Case('rd%d' % i, evs, ['config-redelivered', 'type%d' % typ, kind]))
+        return cases
+
+    def cfg_cases(self, rng, n):
+        """configuration-button inputs: the 5 s hold (+-), 8..11 quick toggles around CFG_BTN_PRESS_COUNT, one gap around the
+        2 s toggle-count reset, in plain and in action-trigger mode"""
+        k = K(); cases = []; CP = k['CFG_PRESS_MS'] * MS; CN = k['CFG_PRESS_COUNT']
+        for i in range(n):
+            typ = rng.choice([2, 2, 4, 8])
+            flags = k['FLAG_CFG_BTN'] | rng.choice([0, 1]) | rng.choice([0, k['FLAG_TRIGGER_ON_PRESS']])
+            if typ == 2: flags |= rng.choice([0, 0, k['FLAG_CFG_ON_TOGGLE'], k['FLAG_CFG_ON_TOGGLE'] | k['FLAG_CFG_ON_HOLD']])
+            if typ == 2: cap = k['CAP_HOLD'] + sum(k['CAP_PRESS_x%d' % j] for j in range(1, 6))
+            elif typ == 4: cap = 3 + sum(k['CAP_TOGGLE_x%d' % j] for j in range(1, 6))
+            else: cap = 3
+            at = rng.random() < 0.5
+            evs = [('CFG', [rng.choice([1, rng.getrandbits(32)]), typ, flags, 1, 1, cap if at else 0, 0], b''), ('ADV', [250 * MS], b''), ('REG', [], b''),
+                   ('ADV', [400 * MS], b'')]
+            if at:
+                bits = [1 << j for j in range(16) if cap >> j & 1]
+                evs.append(('TRIG', [rng.choice([cap, sum(b for b in bits if rng.random() < 0.5) or bits[0]])], b''))
+            evs.append(('ADV', [rng.randrange(450 * MS, 600 * MS)], b''))
+            kind = rng.choice(['hold', 'count', 'gap'] if typ == 2 else ['count', 'gap'])
+            lvl = 0
+            if kind == 'hold':
+                w = CP + rng.choice([-130 * MS, -121 * MS, -120 * MS, -100 * MS, -20 * MS, 0, 20 * MS, rng.randrange(-200 * MS, 200 * MS)])
+                evs += [('IN', [1], b''), ('ADV', [w], b''), ('IN', [0], b''), ('ADV', [800 * MS], b'')]
+            else:
+                nfl = rng.choice([CN - 2, CN - 1, CN, CN + 1]) * (2 if typ == 2 else 1)
+                gapat = rng.randrange(2, nfl) if kind == 'gap' else -1
+                for j in range(nfl):
+                    lvl ^= 1; evs.append(('IN', [lvl], b''))
+                    d = rng.randrange(140 * MS, 230 * MS)
+                    if j == gapat: d = 2000 * MS + rng.choice([-140 * MS, -121 * MS, -120 * MS, -100 * MS, 0, 20 * MS, rng.randrange(-200 * MS, 100 * MS)])
+                    evs.append(('ADV', [d], b''))
+                evs.append(('ADV', [800 * MS], b''))
+            cases.append(F.Case('cb%d' % i, evs, ['cfg-button', 'type%d' % typ, kind, 'at' if at else 'plain']))
         return cases
 
     def startup_cases(self, rng, n):
@@ -399,19 +435,38 @@ class C11(F.PropCheck):
                 cur_act = cfg['cap'] & masks[mi] if mi < len(masks) else ints[1]; mi += 1
             seq.append((kind, ints, cur_act))
         cfgbtn = bool(cfg['flags'] & k['FLAG_CFG_BTN'])
+        # ---- Z  nothing may act before the pin changed for the first time (no actuation - no action); the motion start-up
+        #         synchronisation is judged by S
+        for (kind, ints, a) in seq:
+            if kind == 'EDGE': break
+            if kind in ('ACTIVE', 'INACTIVE', 'TRIG') or (kind in ('GPIO', 'VALUE') and not (cfg['typ'] == 8 and ints[0] >= k['MOTION_INIT_MS'] * MS)):
+                v.append('Z: %s at %d us although the pin has not changed since boot' % (kind, ints[0])); break
+        # ---- R  every relay edge belongs to a recognised actuation (or to the motion start-up synchronisation)
+        MCW = (k['MULTICLICK_MS'] + 4 * k['CYCLE_MS']) * MS + sum(dt for (_, dt) in busy)
+        chg_t = [i[0] for (kd, i, a) in seq if kd == 'NOTIFY' and i[1] != i[2]]
+        loc_t = set(i[0] for (kd, i, a) in seq if kd in ('ACTIVE', 'INACTIVE'))
+        for (kd, i, a) in seq:
+            if kd != 'GPIO': continue
+            tg = i[0] - 10
+            if cfg['typ'] == 8 and tg >= k['MOTION_INIT_MS'] * MS and tg not in loc_t: continue
+            if not any(tg - MCW <= t <= tg for t in chg_t):
+                v.append('R: relay edge at %d us without a recognised change of the input in the %d ms before' % (i[0], MCW // MS)); break
         # ---- P
-        if not cfgbtn:
+        if True:
             relay = 0
             for idx, (kind, ints, a) in enumerate(seq):
                 if kind == 'GPIO': relay = ints[1]
                 if kind != 'NOTIFY' or ints[1] == ints[2] or ints[0] < SIL or a != 0: continue
                 t, new = ints[0], ints[1]
                 rb = relay; g = []; vals = []; trg = 0
+                entered = False
                 for (k2, i2, a2) in seq[idx + 1:]:
+                    if k2 == 'CFGMODE' and i2[0] == t: entered = True
                     if k2 in ('NOTIFY', 'TRIGSET', 'FINAL', 'CFGMODE') or i2[0] > t + 10020 + 40: break
                     if k2 == 'GPIO': g.append(i2[1])
                     elif k2 == 'VALUE': vals.append((i2[1], i2[2]))
                     elif k2 == 'TRIG': trg += 1
+                if entered: continue          # this toggle entered configuration mode (C12's subject)
                 if trg: v.append('P: action trigger sent in plain mode at %d us' % t); break
                 typ = cfg['typ']
                 if typ == 1:
@@ -438,7 +493,7 @@ class C11(F.PropCheck):
                     if t >= k['MOTION_INIT_MS'] * MS and ints[2] != rec:
                         v.append('S: start-up synchronisation at %d us set the relay to %d while the recognised state is %d' % (t, ints[2], rec)); break
         # ---- T
-        if not cfgbtn and cfg['typ'] in (2, 4):
+        if cfg['typ'] in (2, 4):
             v += self.monitor_at(cfg, seq, busy, relsw, tend)
         return v[:3]
 
@@ -484,6 +539,12 @@ class C11(F.PropCheck):
             if a & other: continue        # capability bits of the other button family enabled: not a configuration the text speaks about
             relc = bool(cfg['relay']) and not (a & xbit(1))
             M = max([n for n in range(1, 6) if a & xbit(n)] + [0])
+            cfgb = bool(cfg['flags'] & k['FLAG_CFG_BTN'])
+            on_toggle = cfgb and (not mono or bool(cfg['flags'] & k['FLAG_CFG_ON_TOGGLE']))
+            on_hold = cfgb and mono and (not (cfg['flags'] & k['FLAG_CFG_ON_TOGGLE']) or bool(cfg['flags'] & k['FLAG_CFG_ON_HOLD']))
+            if on_toggle: M = max(M, k['CFG_PRESS_COUNT'])
+            if on_toggle and (len(g) // 2 if mono else len(g)) >= k['CFG_PRESS_COUNT'] - 1: continue       # at the door of configuration mode
+            if on_hold and any(g[q + 1][0] - g[q][0] > k['CFG_PRESS_MS'] * MS - 3 * CYC for q in range(0, len(g) - 1, 2)): continue
             got = [x for (t, x) in trigs if t0 <= t <= w1]
             loc = sum(1 for t in actives if t0 <= t <= w1)
             if mono:
@@ -494,13 +555,13 @@ class C11(F.PropCheck):
                 else:
                     if M <= 1 and N > 1: continue
                     n = min(N, M) if M >= 2 else 1
-                    exp = [xbit(n)] if (a & xbit(n)) and cfg['channel'] != 255 and not (n == 1 and relc) else []
+                    exp = [xbit(n)] if n <= 5 and (a & xbit(n)) and cfg['channel'] != 255 and not (n == 1 and relc) else []
                     exploc = 1 if (N == 1 or M <= 1) and relc else 0; what = '%d quick clicks' % N
             else:
                 N = len(g)
                 if M <= 1 and N > 1: continue
                 n = min(N, M) if M >= 2 else 1
-                exp = [xbit(n)] if (a & xbit(n)) and cfg['channel'] != 255 and not (n == 1 and relc) else []
+                exp = [xbit(n)] if n <= 5 and (a & xbit(n)) and cfg['channel'] != 255 and not (n == 1 and relc) else []
                 exploc = 1 if (N == 1 or M <= 1) and relc else 0; what = '%d quick flips' % N
             if len(got) > 1:
                 v.append('T: %s at %d us produced %d triggers %s (at most one allowed)' % (what, t0, len(got), got)); break
